@@ -94,4 +94,77 @@ theorem mem_swapRemoveIndex (ks : List Nat) (u : Nat) (k : Nat) (h : k ∈ swapR
       · subst h2; exact List.mem_of_getLast? hl
   · exact h
 
+theorem wrap64_id {x : Int} (h : inI64 x) : wrap64 x = x := by unfold wrap64; arith
+
+theorem ckI128_ok {x : Int} (h : -36893488147419103232 ≤ x ∧ x ≤ 36893488147419103232) : ckI128 x = .ok x := by
+  unfold ckI128 I128_MIN I128_MAX
+  have : -170141183460469231731687303715884105728 ≤ x ∧ x ≤ 170141183460469231731687303715884105727 := by omega
+  simp [this]
+
+theorem iabs_facts (start target : Int) (hs : inI64 start) (ht : inI64 target) :
+    0 ≤ iabs (target - start) ∧ iabs (target - start) ≤ 18446744073709551615 ∧
+    (target < start → iabs (target - start) = start - target) ∧
+    (¬ target < start → iabs (target - start) = target - start) := by
+  unfold iabs
+  by_cases h : target - start < 0 <;> simp only [h, ite_true, ite_false] <;>
+    exact ⟨by arith, by arith, fun hlt => by arith, fun hlt => by arith⟩
+
+theorem stepCount_facts (start target step : Int) (hp : 0 < step) :
+    stepCount start target step = Int.tdiv (iabs (target - start)) step ∧
+    (0 ≤ iabs (target - start) → 0 ≤ stepCount start target step ∧
+      stepCount start target step ≤ iabs (target - start) ∧
+      step * stepCount start target step ≤ iabs (target - start)) := by
+  unfold stepCount
+  simp only [gt_iff_lt, hp, ite_true, true_and]
+  intro habs
+  refine ⟨Int.tdiv_nonneg habs (by omega), ?_, ?_⟩
+  · rw [Int.tdiv_eq_ediv_of_nonneg habs]; exact Int.ediv_le_self _ habs
+  · rw [Int.tdiv_eq_ediv_of_nonneg habs]; exact Int.mul_ediv_self_le (by omega)
+
+theorem stepCount_nonpos (start target step : Int) (hp : ¬ 0 < step) : stepCount start target step = -1 := by
+  unfold stepCount; simp [hp]
+
+theorem stepSigned_mul (start target step m : Int) (hst : inI64 step) (hp : 0 < step) :
+    stepSigned start target step * m = if target < start then -(step * m) else step * m := by
+  unfold stepSigned
+  split
+  · rw [wrap64_id (by arith), Int.neg_mul]
+  · rfl
+
+/-- the `m`-th value (`0 ≤ m ≤ count`) lies between `start` and `target`, and the products the code
+forms stay far inside `i128` -/
+theorem step_value (start target step m : Int) (hs : inI64 start) (ht : inI64 target) (hst : inI64 step)
+    (hp : 0 < step) (h0 : 0 ≤ m) (hm : m ≤ stepCount start target step) :
+    between start target (start + stepSigned start target step * m) ∧
+    -18446744073709551615 ≤ stepSigned start target step * m ∧
+    stepSigned start target step * m ≤ 18446744073709551615 := by
+  obtain ⟨ha0, ha1, hneg, hpos⟩ := iabs_facts start target hs ht
+  obtain ⟨_, hc⟩ := stepCount_facts start target step hp
+  obtain ⟨hn0, _, hmul⟩ := hc ha0
+  have h1 : 0 ≤ step * m := Int.mul_nonneg (by omega) h0
+  have h2 : step * m ≤ step * stepCount start target step := Int.mul_le_mul_of_nonneg_left hm (by omega)
+  rw [stepSigned_mul start target step m hst hp]
+  unfold between
+  by_cases hlt : target < start
+  · have := hneg hlt; simp only [hlt, ite_true]; omega
+  · have := hpos hlt; simp only [hlt, ite_false]; omega
+
+theorem retainLoop_checked_total (len0 : Int) (ms : List RetainMove) :
+    ∀ r w len, retainLoop true len0 r w len ms ≠ .panic := by
+  induction ms with
+  | nil => intro r w len; simp [retainLoop]
+  | cons m ms ih =>
+    intro r w len
+    obtain ⟨keep, len'⟩ := m
+    unfold retainLoop
+    split
+    · split
+      · split
+        · split
+          · exact ih _ _ _
+          · simp only [ite_true]; exact ih _ _ _
+        · exact ih _ _ _
+      · simp
+    · simp
+
 end KotoVerif.C06
